@@ -17,9 +17,11 @@ property oracle on the real code's outputs.  Streams:
         PathIO, AsyncPathIO on a tmpdir, a buffering backend with a slow close) x EPSV/PASV x
         throttles x segmentation (every split of a short payload, byte-by-byte, random) of the
         data and control channels x latency.
+      x who looked at the target (stat + MLSD + LIST) BEFORE the transfer (nobody / same / other / both).
       Compared with the model AND with the oracle (plain Python slicing, independent of the
       model): stored bytes read from the backend once the client holds the 226, bytes received
-      before EOF, and stat / list size / a full RETR from a SECOND session.
+      before EOF, stat / MLSD / LIST sizes on the transferring session AND on another one, and a full RETR
+      from the other session.
   (e) the restart offset across command sequences with RETRs anywhere in them, also back to back
       over one passive listener (transfer_trace) vs the real dispatcher, and vs the plain-Python oracle
       "REST applies to exactly the next transfer command".
@@ -63,7 +65,9 @@ LEVEL_TEXT = (
     "C01_network_reads_conforming, C01_file_reads_conforming, C01_early_stop_impossible, C01_reply_after_close, "
     "C01_visible_after_226, C01_later_retr_sees_new_content, C01_rest_applies_to_next_transfer, C01_offset_applies_to_next_command_only, "
     "C01_second_transfer_starts_at_0, C01_back_to_back (a restart offset is served to exactly the next transfer command), "
-    "C01_stor_missing_file (REST n + STOR/APPE on a missing file: 451, nothing created), the write_at lemmas, and the closed obligations "
+    "C01_stor_missing_file (REST n + STOR/APPE on a missing file: 451, nothing created), C01_refused_transfer_consumes_offset "
+    "(a transfer refused before its worker runs consumes the offset too), C01_size_visible_after_226_whoever_looked (stat / "
+    "listing steps inserted anywhere in the upload's statement sequence: the size reported after the 226 is the new one), the write_at lemmas, and the closed obligations "
     "C01_source_facts / C01_verb_modes / C01_source_programs on the regenerated facts; C01_model_is_program_denotation, "
     "C01_stor_prog_exact, C01_retr_prog_exact, C01_upload_prog_exact, C01_download_prog_exact, C01_upload_path_exact, "
     "C01_download_path_exact (about the translated programs); C01_timed_reads_conforming, C01_timed_stor_exact, "
@@ -309,6 +313,7 @@ def case_defaults(case):
         "chunks": [],
         "cblock": None,
         "pre": [],
+        "observe_before": None,  # None / "same" / "other" / "both": sessions that stat + list the target before the transfer
         "local_old": None,  # DOWNLOAD: previous content of the client's destination file (None = no such file)
         "stall": None,  # [t, d]: both directions of the data channel deliver nothing from t to t+d (virtual s) after connecting
     }
@@ -330,6 +335,25 @@ def unjson(case):
         if isinstance(c.get(k), dict) and "hex" in c[k]:
             c[k] = bytes.fromhex(c[k]["hex"])
     return c
+
+
+async def _observe(cl, name):
+    """what one session is told about `name`: MLST size, MLSD size, LIST size (None = not listed; an
+    error is an observation: its class name)"""
+    out = {}
+    try:
+        out["stat"] = int((await cl.stat(name))["size"])
+    except Exception as e:
+        out["stat"] = type(e).__name__
+    for key, kw in (("mlsd", {}), ("list", {"raw_command": "LIST"})):
+        try:
+            out[key] = None
+            for path, info in await cl.list("/", **kw):
+                if path.name == name:
+                    out[key] = int(info["size"])
+        except Exception as e:
+            out[key] = type(e).__name__
+    return out
 
 
 async def _transfer(client, verb, name, payload, offset, chunks, cblock):
@@ -476,6 +500,16 @@ async def _run_case(net, case, base):
                     pass
             else:
                 await _transfer(client, pverb, "pre.bin", b"pre-transfer", poff, [], None)
+        obs = None
+        if case["observe_before"] in ("other", "both"):
+            obs = aioftp.Client(passive_commands=("epsv",))
+            await obs.connect("127.0.0.1", PORT)
+            await obs.login()
+        res["before"] = {}
+        if case["observe_before"] in ("same", "both"):
+            res["before"]["same"] = await _observe(client, FNAME)
+        if obs is not None:
+            res["before"]["other"] = await _observe(obs, FNAME)
         if verb in ("STOR", "APPE", "RETR"):
             res["received"] = await _transfer(client, verb, FNAME, payload, offset, case["chunks"], case["cblock"])
         elif verb == "UPLOAD":
@@ -493,10 +527,13 @@ async def _run_case(net, case, base):
         # the client now holds the completion reply: look at the backend directly, right now
         res["stored"] = store.get(FNAME)
         res["t_done"] = asyncio.get_running_loop().time()
-        # a SECOND session observes
-        obs = aioftp.Client(passive_commands=("epsv",))
-        await obs.connect("127.0.0.1", PORT)
-        await obs.login()
+        # the transferring session observes, and a SECOND session (an older one if it looked before)
+        res["after_same"] = await _observe(client, FNAME)
+        if obs is None:
+            obs = aioftp.Client(passive_commands=("epsv",))
+            await obs.connect("127.0.0.1", PORT)
+            await obs.login()
+        res["after_other"] = await _observe(obs, FNAME)
         st = await obs.stat(FNAME)
         res["stat_size"] = int(st["size"])
         res["list_size"] = None
@@ -855,7 +892,12 @@ def gen_session_cases(ctx, scale):
     cases = []
     thorough = ctx.tier == "thorough"
 
+    orng = random.Random(rng.randrange(10**9))  # its own stream: the other dimensions keep their draws
+
     def add(**kw):
+        # who looked at the target (stat + MLSD + LIST) BEFORE the transfer: nobody, the transferring
+        # session, another session, both -- the answers AFTER the completion reply must not depend on it
+        kw.setdefault("observe_before", orng.choice([None, None, "same", "other", "both"]))
         cases.append(kw)
 
     # -- 1. payload x offset x verb x small block sizes, memory backend, alternating passive mode
@@ -1044,6 +1086,22 @@ def check_case(ctx, case, res, model_out, stream="session"):
             {"key": f"c01-{verb.lower()}-not-visible-after-226", "case": rep, "stat": res.get("stat_size"), "list": res.get("list_size"),
              "second_retr": (res.get("second_retr") or b"").hex()[:400], "expected_len": len(final)},
         )
+    # ... on the transferring session too, by MLST, MLSD and LIST, whoever looked before the transfer
+    for who in ("after_same", "after_other"):
+        o = res.get(who) or {}
+        if any(o.get(k) != len(final) for k in ("stat", "mlsd", "list")):
+            ctx.violation(
+                f"{verb}: stat / listing after the completion reply do not report the new size",
+                {"key": f"c01-{verb.lower()}-size-not-visible-after-226", "case": rep, "session": who, "reported": o, "before": res.get("before"),
+                 "expected_size": len(final)},
+            )
+            break
+    before_len = len(payload) if not upload else (None if old is None else len(old))
+    for who, o in (res.get("before") or {}).items():
+        want_b = before_len if before_len is not None else None
+        if before_len is not None and any(o.get(k) != want_b for k in ("stat", "mlsd", "list")):
+            ctx.violation(f"{verb}: stat / listing BEFORE the transfer do not report the stored size",
+                          {"key": "c01-size-before-transfer", "case": rep, "session": who, "reported": o, "expected_size": want_b})
     for got, (pverb, poff) in zip(res["pre"], [p for p in c["pre"] if p[0] == "RETR"]):
         pre_content = payload if not upload else (old or b"")
         if got != pre_content[poff:]:
@@ -1106,6 +1164,7 @@ def session_stream(ctx, xcheck, scale, reps=1):
             ctx.count("stalled_mid_transfer")
         if c["local_old"] is not None:
             ctx.count("download_onto_existing_local_file")
+        ctx.count("observed_before_by_" + str(c["observe_before"]).lower())
         if c["verb"] in ("STOR", "APPE"):
             ctx.count("old_" + ("missing" if c["old"] is None else "shorter" if len(c["old"]) < c["offset"] + len(c["payload"]) else "equal" if len(c["old"]) == c["offset"] + len(c["payload"]) else "longer"))
         check_case(ctx, case, res, mo)
@@ -1116,100 +1175,207 @@ def session_stream(ctx, xcheck, scale, reps=1):
     ctx.count("session_cases", len(cases))
 
 
+UP_OLD = b"0123456789abcdef"  # content of the upload target before every upload step of stream (e)
+UP_NEW = b"XYZ"
+REFUSED = {"retr_missing": "retr", "retr_noconn": "retr", "stor_ro": "stor", "appe_missing_dir": "appe"}
+OFFSET_VERB_CODE = {"type": 0, "noop": 6, "retr": 5, "stor": 3, "appe": 4}
+
+
 def py_offsets(seq):
     """the property oracle for the restart offset, plain Python: REST n is pending for exactly the next
     command; a transfer command is served from what is pending when it is dispatched; any known
-    command consumes it; an unknown one (502) does not."""
+    command -- also a transfer command that is REFUSED before any byte moves (550 / 425) --
+    consumes it; an unknown one (502) does not.  Returns, per step that moves bytes, what must be
+    observed: ("retr", offset) / ("stor"|"appe", content of the target afterwards)."""
     pending, out = 0, []
     for s in seq:
         if s[0] == "rest":
             pending = s[1]
         elif s[0] == "retr":
-            out.append(pending)
+            out.append(("retr", pending))
+            pending = 0
+        elif s[0] in ("stor", "appe"):
+            out.append((s[0], py_spec_store(s[0].upper(), pending, UP_NEW, UP_OLD)))
             pending = 0
         elif s[0] == "noop":  # not implemented by aioftp: 502, nothing else happens
             pass
-        else:
+        else:  # type, and every refused transfer command
             pending = 0
     return out
 
 
+OFFSET_CONTENT = bytes(range(40, 80))
+TRANSFER_KINDS = ("retr", "stor", "appe")
+
+
+async def _offset_session(net, seq):
+    content = OFFSET_CONTENT
+    users = [aioftp.User(base_path="/", home_path="/", permissions=[aioftp.Permission("/"), aioftp.Permission("/ro", writable=False)])]
+    server = aioftp.Server(users, path_io_factory=aioftp.MemoryPathIO, block_size=4, wait_future_timeout=1)
+    await server.start("127.0.0.1", 2121)
+    store = Store("memory", server, None)
+    store.put(FNAME, content)
+    store.put("up.bin", UP_OLD)
+    mp = store._mem()
+    mp.get_node(pathlib.PurePosixPath("/")).content.append(aioftp.pathio.Node("dir", "ro", content=[]))
+    c = aioftp.Client(passive_commands=("pasv",))
+    await c.connect("127.0.0.1", 2121)
+    await c.login()
+    # ONE passive listener for the whole sequence (TYPE/PASV are commands and would consume a pending offset)
+    await c.command("TYPE I", "200")
+    ip, port = await c._do_pasv()
+    host = c.server_host if ip in ("0.0.0.0", None) else ip
+    obs = []
+
+    async def cmd(line, expect=("1xx", "2xx", "3xx", "4xx", "5xx")):
+        code, _info = await c.command(line, expect)
+        return str(code)
+
+    for s in seq:
+        kind = s[0]
+        try:
+            if kind == "rest":
+                await cmd(f"REST {s[1]}")
+            elif kind == "type":
+                await cmd("TYPE I")
+            elif kind == "noop":
+                await cmd("NOOP")
+            elif kind == "retr_missing":
+                obs.append(("refused", await cmd("RETR no-such-file.bin")))
+            elif kind == "stor_ro":
+                obs.append(("refused", await cmd("STOR ro/x.bin")))
+            elif kind == "appe_missing_dir":
+                obs.append(("refused", await cmd("APPE no-such-dir/x.bin")))
+            elif kind == "retr_noconn":
+                # no data connection is opened: 150, then 425 after wait_future_timeout (virtual time)
+                first = await cmd("RETR " + FNAME)
+                obs.append(("refused", first if not first.startswith("1") else await cmd(None, ("2xx", "4xx", "5xx"))))
+            elif kind == "retr":
+                reader, writer = await c._open_connection(host, port)
+                first = await cmd("RETR " + FNAME)
+                got = await reader.read() if first.startswith("1") else b""
+                writer.close()
+                last = await cmd(None, ("2xx", "4xx", "5xx")) if first.startswith("1") else first
+                obs.append(("retr", got, last))
+            else:  # stor / appe onto up.bin, which holds UP_OLD before every upload step
+                store.put("up.bin", UP_OLD)
+                reader, writer = await c._open_connection(host, port)
+                first = await cmd(kind.upper() + " up.bin")
+                if first.startswith("1"):
+                    writer.write(UP_NEW)
+                    await writer.drain()
+                writer.close()
+                last = await cmd(None, ("2xx", "4xx", "5xx")) if first.startswith("1") else first
+                obs.append((kind, store.get("up.bin"), last))
+        except Exception as e:  # an exception is an observation, the sequence goes on
+            obs.append(("exception", kind, type(e).__name__ + ":" + str(e)[:60]))
+    try:
+        await c.quit()
+    except Exception:
+        c.close()
+    await server.close()
+    return obs
+
+
+
+def run_offset_seq(seq):
+    try:
+        return simnet.run(lambda net: _offset_session(net, seq))
+    except Exception as e:
+        return [("exception", "run", type(e).__name__ + ":" + str(e)[:60])]
+
+
+def offset_verdict(seq, obs):
+    """property oracle on one observed sequence: (ok, what the steps that moved bytes showed, what they must show)"""
+    content = OFFSET_CONTENT
+    moved = [o for o in obs if o[0] in TRANSFER_KINDS]
+    want = py_offsets(seq)
+    got = [("retr", len(content) - len(o[1])) if o[0] == "retr" and o[2].startswith("2") and content.endswith(o[1]) else (o[0], o[1]) if o[2].startswith("2") else (o[0], "reply " + o[2]) for o in moved]
+    want_n = [(k, min(v, len(content))) if k == "retr" else (k, v) for k, v in want]
+    bad_refusal = [o for o in obs if o[0] == "refused" and not (o[1].startswith("4") or o[1].startswith("5"))]
+    ok = got == want_n and not any(o[0] == "exception" for o in obs) and not bad_refusal
+    return ok, got, want
+
+
 def offset_stream(ctx, xcheck):
     """(e) transfer_trace vs the real dispatcher: command sequences through the control channel with
-    RETRs anywhere in them -- including back to back, with no command in between, over the same
-    passive listener; the first byte of each download tells the offset it was served from"""
+    transfers anywhere in them -- RETR / STOR / APPE, back to back with no command in between over
+    the same passive listener, and transfer commands that are REFUSED before their worker runs
+    (550 missing file, 550 permission, 425 no data connection) between a REST and the next
+    transfer; every download tells the offset it was served from, every upload is read back
+    from the backend"""
     rng = ctx.rng
-    content = bytes(range(40, 80))
-    VERBS = {"type": (1, 0, "TYPE I"), "noop": (1, 6, "NOOP"), "retr": (1, 5, "RETR " + FNAME)}
+    content = OFFSET_CONTENT
     seqs = [
         [("rest", 4), ("retr",), ("retr",)],  # the former F14 witness
         [("rest", 7), ("retr",), ("retr",), ("retr",)],
         [("rest", 5), ("noop",), ("retr",), ("noop",), ("retr",)],
         [("rest", 3), ("type",), ("retr",)],
         [("rest", 9), ("rest", 2), ("retr",), ("rest", 6), ("retr",), ("retr",)],
+        [("rest", 6), ("retr_missing",), ("retr",)],
+        [("rest", 5), ("stor_ro",), ("stor",)],
+        [("rest", 5), ("retr_noconn",), ("appe",)],
+        [("rest", 3), ("appe_missing_dir",), ("noop",), ("stor",), ("retr",)],
+        [("rest", 4), ("stor",), ("stor",), ("rest", 20), ("appe",), ("appe",)],
     ]
-    for _ in range(45):
+    for _ in range(50):
         seq = []
         for _ in range(rng.randint(0, 6)):
             x = rng.random()
-            if x < 0.4:
+            if x < 0.35:
                 seq.append(("rest", rng.randint(0, 30)))
-            elif x < 0.7:
-                seq.append(("retr",))
+            elif x < 0.6:
+                seq.append((rng.choice(["retr", "retr", "stor", "appe"]),))
+            elif x < 0.8:
+                seq.append((rng.choice(list(REFUSED)),))
             else:
                 seq.append((rng.choice(["type", "noop"]),))
-        seqs.append(seq + [("retr",)])
-    enc = lambda seq: [[[0, s[1]] if s[0] == "rest" else [1, VERBS[s[0]][1]] for s in seq]]
+        seqs.append(seq + [(rng.choice(["retr", "retr", "stor", "appe"]),)])
+    enc = lambda seq: [[[0, s[1]] if s[0] == "rest" else [1, OFFSET_VERB_CODE[REFUSED.get(s[0], s[0])]] for s in seq]]
     mo = ctx.model([(9, enc(seq)) for seq in seqs])
 
-    async def one(net, seq):
-        server = aioftp.Server([aioftp.User(base_path="/", home_path="/")], path_io_factory=aioftp.MemoryPathIO, block_size=4)
-        await server.start("127.0.0.1", 2121)
-        Store("memory", server, None).put(FNAME, content)
-        c = aioftp.Client(passive_commands=("pasv",))
-        await c.connect("127.0.0.1", 2121)
-        await c.login()
-        # ONE passive listener for the whole sequence (TYPE/PASV are commands and would consume a pending offset)
-        await c.command("TYPE I", "200")
-        ip, port = await c._do_pasv()
-        got = []
-        for s in seq:
-            if s[0] == "retr":
-                reader, writer = await c._open_connection(c.server_host if ip in ("0.0.0.0", None) else ip, port)
-                await c.command("RETR " + FNAME, "1xx")
-                got.append(await reader.read())
-                writer.close()
-                await c.command(None, "2xx")
-                continue
-            line = f"REST {s[1]}" if s[0] == "rest" else VERBS[s[0]][2]
-            try:
-                await c.command(line, ("2xx", "3xx", "5xx"))
-            except aioftp.StatusCodeError:
-                pass
-        await c.quit()
-        await server.close()
-        return got
-
-    n_b2b = 0
+    n_b2b = n_ref = 0
+    transfer_kinds = TRANSFER_KINDS
     for seq, m in zip(seqs, mo):
         ctx.case(("transfer_trace", tuple(seq)))
         ctx.traces_impl += 1
-        got = simnet.run(lambda net: one(net, seq))
-        used = [len(content) - len(g) if content.endswith(g) else -1 for g in got]
-        if used != [min(x, len(content)) for x in m]:
-            ctx.disagree("transfer_trace", [list(s) for s in seq], m, used)
-        want = py_offsets(seq)
-        if got != [content[w:] for w in want]:
+        obs = run_offset_seq(seq)
+        rep = {"key": "c01-offset-not-next-transfer-only", "seq": [list(s) for s in seq]}
+        # the model's trace has one entry per transfer COMMAND (refused ones included: the dispatcher
+        # hands the offset over before the handler refuses); keep those whose worker ran
+        cmds = [s[0] for s in seq if s[0] in transfer_kinds or s[0] in REFUSED]
+        model_used = [off for k, off in zip(cmds, m) if k in transfer_kinds]
+        moved = [o for o in obs if o[0] in transfer_kinds]
+        impl_used = []
+        for o in moved:
+            if o[0] == "retr":
+                impl_used.append(len(content) - len(o[1]) if o[2].startswith("2") and content.endswith(o[1]) else -1)
+            else:
+                cands = [off for off in range(0, 40) if o[2].startswith("2") and o[1] == py_spec_store(o[0].upper(), off, UP_NEW, UP_OLD)]
+                impl_used.append(cands[0] if cands else -1)
+        # APPE from 0 and from len(UP_OLD) give the same file: compare through the content
+        def same(kind, a, b):
+            if kind == "retr":
+                return min(a, len(content)) == min(b, len(content))
+            return a >= 0 and py_spec_store(kind.upper(), a, UP_NEW, UP_OLD) == py_spec_store(kind.upper(), b, UP_NEW, UP_OLD)
+        if len(impl_used) != len(model_used) or not all(same(o[0], a, b) for o, a, b in zip(moved, impl_used, model_used)):
+            ctx.disagree("transfer_trace", [list(s) for s in seq], model_used, impl_used)
+        ok, _got, want = offset_verdict(seq, obs)
+        if not ok:
             ctx.violation(
                 "a restart offset did not apply to exactly the next transfer command",
-                {"key": "c01-offset-not-next-transfer-only", "seq": [list(s) for s in seq], "served_from": used, "expected": want},
+                dict(rep, observed=[[x.hex() if isinstance(x, bytes) else x for x in o] for o in obs],
+                     expected=[[k, v.hex() if isinstance(v, bytes) else v] for k, v in want]),
             )
-        if any(a[0] == "retr" and b[0] == "retr" for a, b in zip(seq, seq[1:])):
+        if any(a[0] in transfer_kinds and b[0] in transfer_kinds for a, b in zip(seq, seq[1:])):
             n_b2b += 1
+        if any(s[0] in REFUSED for s in seq):
+            n_ref += 1
         if len(xcheck) < 90:
             xcheck.append((9, enc(seq), m))
     ctx.count("offset_sequences", len(seqs))
     ctx.count("offset_sequences_with_back_to_back_transfers", n_b2b)
+    ctx.count("offset_sequences_with_refused_transfers", n_ref)
 
 
 def missing_restart_stream(ctx, xcheck):
@@ -1306,8 +1472,10 @@ def correspondence(ctx, scale=None):
         "end, beyond end) x verb (upload_stream, append_stream, download_stream, upload(), download()) x server block size (1,3,4,7,"
         "64,default) x client chunking x backend (MemoryPathIO, PathIO, AsyncPathIO, buffering slow-close) x EPSV/PASV x throttles "
         "x latency x mid-transfer stalls x segmentation (every split of payloads up to 5-6 bytes; byte-by-byte; random) on data and control channels x "
-        "pre-existing content (missing, shorter, equal, longer); (e) REST/TYPE/NOOP/RETR sequences (RETRs anywhere, also back to back over one passive listener; 5 fixed incl. the former F14 "
-        "witness + 45 random) vs transfer_trace and the offset oracle; (f) REST n + STOR/APPE on a missing file: 3 backends x 2 verbs x offsets "
+        "pre-existing content (missing, shorter, equal, longer); (e) sequences over REST n / TYPE / NOOP / RETR / STOR / APPE / refused transfers (550 missing, 550 permission, 425 no data "
+        "connection) through ONE passive listener, transfers anywhere and back to back (10 fixed + 50 random) vs transfer_trace and the "
+        "plain-Python offset oracle; every session case of (d) additionally draws who stats + lists (MLST, MLSD, LIST) the target BEFORE "
+        "the transfer (nobody / the transferring session / another session / both), and both sessions do so AFTER the completion reply; (f) REST n + STOR/APPE on a missing file: 3 backends x 2 verbs x offsets "
         "(1, 5, 0) x 3 payloads; (b2) "
         "timed read traces: 0-6 segments at non-decreasing instants (gaps 0..1000) x scripted wait delays (0..5000) x block size, real "
         "ThrottleStreamIO.read on the virtual clock vs timed_trace (blocks AND instants). A case "
@@ -1342,6 +1510,14 @@ def search(ctx):
 def replay(ctx, data):
     """re-run one recorded case on the implementation; True when the property holds on it"""
     r = data.get("replay", {})
+    if "seq" in r:
+        seq = [tuple(x) for x in r["seq"]]
+        obs = run_offset_seq(seq)
+        ok, got, want = offset_verdict(seq, obs)
+        print("sequence:", seq)
+        print("observed:", [[x.hex() if isinstance(x, bytes) else x for x in o] for o in obs])
+        print("expected:", [[k, v.hex() if isinstance(v, bytes) else v] for k, v in want])
+        return ok
     if "case" not in r:
         print("replay payload:", data)
         return False
@@ -1361,4 +1537,5 @@ def replay(ctx, data):
         ok = res["received"] == want and res["stored"] == payload
         final = payload
     print("expected:", want.hex()[:120])
-    return ok and res["stat_size"] == len(final) and res["list_size"] == len(final) and res["second_retr"] == final
+    sizes_ok = all((res.get(who) or {}).get(k) == len(final) for who in ("after_same", "after_other") for k in ("stat", "mlsd", "list"))
+    return ok and sizes_ok and res["stat_size"] == len(final) and res["list_size"] == len(final) and res["second_retr"] == final
